@@ -48,6 +48,28 @@ structure ObjSt where
   stop : Option Int
 deriving DecidableEq, Repr
 
+/-- which end of an object / which registry of a point -/
+inductive Side | start | stop
+deriving DecidableEq, Repr
+
+/-- `starting_objects` / `ending_objects` -/
+def Point.reg (p : Point) : Side → List ObjRef
+  | .start => p.starting
+  | .stop => p.ending
+
+def Point.setReg (p : Point) : Side → List ObjRef → Point
+  | .start, l => { p with starting := l }
+  | .stop, l => { p with ending := l }
+
+/-- `o.start` / `o.end` -/
+def ObjSt.at (e : ObjSt) : Side → Option Int
+  | .start => e.start
+  | .stop => e.stop
+
+def ObjSt.setAt (e : ObjSt) : Side → Option Int → ObjSt
+  | .start, v => { e with start := v }
+  | .stop, v => { e with stop := v }
+
 structure Part where
   points : List Point
   qtab : List (Int × Nat)
@@ -242,37 +264,36 @@ def cleanupPoint (s : Part) (t : Int) : Except Err Part :=
       pure { s with points := pts, requested := s.requested.filter (· ≠ t) }
     else pure s
 
-def addStart (s : Part) (t : Int) (o : ObjRef) : Except Err Part := do
+/-- `self.get_or_add_point(t).add_starting_object(o)` / `.add_ending_object(o)` -/
+def addSide (s : Part) (sd : Side) (t : Int) (o : ObjRef) : Except Err Part := do
   let s1 ← ensurePoint s t
   pure { s1 with
-    points := modifyPoint s1.points t (fun p => { p with starting := regAdd p.starting o }),
-    objs := setObj s1.objs o (fun e => { e with start := some t }) }
+    points := modifyPoint s1.points t (fun p => p.setReg sd (regAdd (p.reg sd) o)),
+    objs := setObj s1.objs o (fun e => e.setAt sd (some t)) }
 
-def addStop (s : Part) (t : Int) (o : ObjRef) : Except Err Part := do
-  let s1 ← ensurePoint s t
-  pure { s1 with
-    points := modifyPoint s1.points t (fun p => { p with ending := regAdd p.ending o }),
-    objs := setObj s1.objs o (fun e => { e with stop := some t }) }
-
-def removeStart (s : Part) (o : ObjRef) : Except Err Part :=
-  match (getObj s.objs o).start with
+/-- one half of `Part.remove`: `if o.start: o.start.starting_objects[type(o)].remove(o);
+self._cleanup_point(o.start); o.start = None` (and the same for `end`) -/
+def removeSide (s : Part) (sd : Side) (o : ObjRef) : Except Err Part :=
+  match (getObj s.objs o).at sd with
   | none => pure s
   | some t => do
     let s1 : Part := { s with
-      points := modifyPoint s.points t (fun p => { p with starting := regRemove p.starting o }) }
+      points := modifyPoint s.points t (fun p => p.setReg sd (regRemove (p.reg sd) o)) }
     let s2 ← cleanupPoint s1 t
-    pure { s2 with objs := setObj s2.objs o (fun e => { e with start := none }) }
-
-def removeStop (s : Part) (o : ObjRef) : Except Err Part :=
-  match (getObj s.objs o).stop with
-  | none => pure s
-  | some t => do
-    let s1 : Part := { s with
-      points := modifyPoint s.points t (fun p => { p with ending := regRemove p.ending o }) }
-    let s2 ← cleanupPoint s1 t
-    pure { s2 with objs := setObj s2.objs o (fun e => { e with stop := none }) }
+    pure { s2 with objs := setObj s2.objs o (fun e => e.setAt sd none) }
 
 -- ------------------------------------------------------------------ Part.set_quarter_duration
+
+/-- `np.searchsorted(self._points, TimePoint(start))`, or 0 when `start is None` -/
+def startIdx (pts : List Point) : Option Int → Nat
+  | none => 0
+  | some x => searchsorted (pts.map (·.t)) x
+
+/-- `np.searchsorted(self._points, TimePoint(end))`, or `len(self._points)` when `end is None`
+(also: `t_next = np.inf` in `set_quarter_duration`) -/
+def endIdx (pts : List Point) : Option Int → Nat
+  | none => pts.length
+  | some x => searchsorted (pts.map (·.t)) x
 
 /-- `for tp in self._points[si:ei]: tp.quarter = q` -/
 def setQuarterRange : List Point → Nat → Nat → Nat → List Point
@@ -297,23 +318,27 @@ def setQD (s : Part) (t : Int) (q : Nat) : Part :=
   match qtabUpdate s.qtab t q with
   | (_, none) => s
   | (i, some tab') =>
-    let ts := s.points.map (·.t)
-    let si := searchsorted ts t
-    let ei := match tab'[i + 1]? with
-      | none => s.points.length                  -- t_next = inf
-      | some e => searchsorted ts e.1
+    let si := searchsorted (s.points.map (·.t)) t
+    let ei := endIdx s.points (tab'[i + 1]?.map (·.1))     -- t_next = inf when there is no later change
     { s with qtab := tab', points := setQuarterRange s.points si ei q }
 
 -- ------------------------------------------------------------------ queries
 
+/-- `mode`: anything but "ending" means "starting" (unknown modes only warn) -/
+def Mode.side : Mode → Side
+  | .ending => .stop
+  | _ => .start
+
+/-- `if cls is None: cls = object; include_subclasses = True` -/
+def inclEff : Option Nat → Bool → Bool
+  | none, _ => true
+  | some _, incl => incl
+
 /-- `Part.iter_all` -/
 def iterAll (s : Part) (cls : Option Nat) (a b : Option Int) (incl : Bool) (mode : Mode) : List ObjRef :=
-  let ts := s.points.map (·.t)
-  let si := match a with | none => 0 | some x => searchsorted ts x
-  let ei := match b with | none => s.points.length | some x => searchsorted ts x
-  let incl' := match cls with | none => true | some _ => incl
-  ((s.points.drop si).take (ei - si)).flatMap fun p =>
-    iterReg (match mode with | .ending => p.ending | _ => p.starting) cls incl'
+  let si := startIdx s.points a
+  let ei := endIdx s.points b
+  ((s.points.drop si).take (ei - si)).flatMap fun p => iterReg (p.reg mode.side) cls (inclEff cls incl)
 
 /-- follow `prev` (or `next`) links starting from the point referenced by `cur` -/
 def walk (pts : List Point) (link : Point → Option Int) : Nat → Option Int → Except Err (List Point)
@@ -347,35 +372,41 @@ def isNeg : Option Int → Bool
 
 -- ------------------------------------------------------------------ the state machine
 
+/-- `if start is not None: self.get_or_add_point(start).add_starting_object(o)` (same for `end`) -/
+def addSideOpt (s : Part) (sd : Side) (t : Option Int) (o : ObjRef) : Except Err Part :=
+  match t with
+  | some t => addSide s sd t o
+  | none => .ok s
+
+/-- `Part.add(o, start, end)` (repaired, fixes/C01-3: both times are validated first) -/
+def stepAdd (s : Part) (o : ObjRef) (st en : Option Int) : Except Err Part :=
+  if isNeg st || isNeg en then .error .invalidTimePoint
+  else (addSideOpt s .start st o).bind fun s1 => addSideOpt s1 .stop en o
+
+/-- `Part.remove(o, which)` -/
+def stepRemove (s : Part) (o : ObjRef) (w : Which) : Except Err Part :=
+  (if w = .start ∨ w = .both then removeSide s .start o else .ok s).bind fun s1 =>
+    if w = .stop ∨ w = .both then removeSide s1 .stop o else .ok s1
+
+/-- `Part.get_or_add_point(t)` called by the user (records the request in the ghost field) -/
+def stepGetOrAdd (s : Part) (t : Int) : Except Err Part :=
+  (ensurePoint s t).map fun s1 =>
+    { s1 with requested := if t ∈ s1.requested then s1.requested else s1.requested ++ [t] }
+
 def step (s : Part) : Op → Except Err (Part × Out)
-  | .add o st en =>
-    if isNeg st || isNeg en then .error .invalidTimePoint
-    else do
-      let s1 ← match st with | some t => addStart s t o | none => pure s
-      let s2 ← match en with | some t => addStop s1 t o | none => pure s1
-      pure (s2, .unit)
-  | .remove o w => do
-    let s1 ← if w = .start ∨ w = .both then removeStart s o else pure s
-    let s2 ← if w = .stop ∨ w = .both then removeStop s1 o else pure s1
-    pure (s2, .unit)
-  | .setQD t q => pure (setQD s t q, .unit)
-  | .getOrAdd t => do
-    let s1 ← ensurePoint s t
-    pure ({ s1 with requested := if t ∈ s1.requested then s1.requested else s1.requested ++ [t] },
-          .point (some t))
-  | .iterAll cls a b incl mode => pure (s, .objs (iterAll s cls a b incl mode))
-  | .iterPrev t cls eq incl => do
-    let r ← iterLinks s (·.prev) t cls eq incl
-    pure (s, r)
-  | .iterNext t cls eq incl => do
-    let r ← iterLinks s (·.next) t cls eq incl
-    pure (s, r)
-  | .first => pure (s, .point (s.points.head?.map (·.t)))
-  | .last => pure (s, .point (s.points.getLast?.map (·.t)))
+  | .add o st en => (stepAdd s o st en).map fun s' => (s', .unit)
+  | .remove o w => (stepRemove s o w).map fun s' => (s', .unit)
+  | .setQD t q => .ok (setQD s t q, .unit)
+  | .getOrAdd t => (stepGetOrAdd s t).map fun s' => (s', .point (some t))
+  | .iterAll cls a b incl mode => .ok (s, .objs (iterAll s cls a b incl mode))
+  | .iterPrev t cls eq incl => (iterLinks s (·.prev) t cls eq incl).map fun r => (s, r)
+  | .iterNext t cls eq incl => (iterLinks s (·.next) t cls eq incl).map fun r => (s, r)
+  | .first => .ok (s, .point (s.points.head?.map (·.t)))
+  | .last => .ok (s, .point (s.points.getLast?.map (·.t)))
   | .getPoint t =>
     if t < 0 then .error .invalidTimePoint
-    else pure (s, .point ((getPoint s.points t).map (·.t)))
-  | .quarterDurations a b => pure (s, .qds (quarterDurations s a b))
+    else .ok (s, .point ((getPoint s.points t).map (·.t)))
+  | .quarterDurations a b => .ok (s, .qds (quarterDurations s a b))
 
 /-- run a history; a rejected operation leaves the state as it was (Python: the exception propagates
 to the caller, who keeps using the part) -/
@@ -399,6 +430,10 @@ instance : (pv : Option Int) → (l : List Point) → Decidable (LinksFrom pv l)
     have := instDecidableLinksFrom (some p.t) rest
     inferInstanceAs (Decidable (p.prev = pv ∧ p.next = rest.head?.map (·.t) ∧ LinksFrom (some p.t) rest))
 
+instance (P : Side → Prop) [Decidable (P .start)] [Decidable (P .stop)] : Decidable (∀ sd, P sd) :=
+  decidable_of_iff (P .start ∧ P .stop)
+    ⟨fun h sd => by cases sd; exact h.1; exact h.2, fun h => ⟨h _, h _⟩⟩
+
 structure Inv (s : Part) : Prop where
   /-- time points strictly increasing -/
   sorted : s.times.Pairwise (· < ·)
@@ -407,16 +442,15 @@ structure Inv (s : Part) : Prop where
   /-- linked to their true predecessor and successor -/
   links : LinksFrom none s.points
   /-- a registry lists an object at most once -/
-  regNodup : ∀ p ∈ s.points, p.starting.Nodup ∧ p.ending.Nodup
+  regNodup : ∀ sd, ∀ p ∈ s.points, (p.reg sd).Nodup
   /-- one record per object -/
   objsNodup : (s.objs.map (·.ref)).Nodup
-  /-- an object's `start` refers to the very point that lists it, and only that point lists it -/
-  startListed : ∀ e ∈ s.objs, ∀ p ∈ s.points, (e.ref ∈ p.starting ↔ e.start = some p.t)
-  startExists : ∀ e ∈ s.objs, e.start = none ∨ ∃ p ∈ s.points, e.start = some p.t
-  stopListed : ∀ e ∈ s.objs, ∀ p ∈ s.points, (e.ref ∈ p.ending ↔ e.stop = some p.t)
-  stopExists : ∀ e ∈ s.objs, e.stop = none ∨ ∃ p ∈ s.points, e.stop = some p.t
+  /-- an object's `start` (`end`) refers to the very point that lists it, and only that point lists it -/
+  listed : ∀ sd, ∀ e ∈ s.objs, ∀ p ∈ s.points, (e.ref ∈ p.reg sd ↔ e.at sd = some p.t)
+  /-- a `start` (`end`) reference is a point of the timeline -/
+  refOn : ∀ sd, ∀ e ∈ s.objs, ∀ t, e.at sd = some t → t ∈ s.times
   /-- every listed object is a known object -/
-  listedKnown : ∀ p ∈ s.points, ∀ o ∈ p.starting ++ p.ending, o ∈ s.objs.map (·.ref)
+  listedKnown : ∀ sd, ∀ p ∈ s.points, ∀ o ∈ p.reg sd, o ∈ s.objs.map (·.ref)
   /-- no point is empty unless it was requested through `get_or_add_point` -/
   nonempty : ∀ p ∈ s.points, p.starting ≠ [] ∨ p.ending ≠ [] ∨ p.t ∈ s.requested
   requestedOn : ∀ t ∈ s.requested, t ∈ s.times
@@ -426,15 +460,14 @@ structure Inv (s : Part) : Prop where
   qsorted : (s.qtab.map (·.1)).Pairwise (· < ·)
   qhead : s.qtab.head?.map (·.1) = some 0
 
+/-- executable form of `Inv` (the driver evaluates it on the model state; `invB_iff` in Proofs/C01Inv) -/
 def invB (s : Part) : Bool :=
   decide (s.times.Pairwise (· < ·)) && decide (∀ p ∈ s.points, 0 ≤ p.t) && decide (LinksFrom none s.points)
-  && decide (∀ p ∈ s.points, p.starting.Nodup ∧ p.ending.Nodup)
+  && decide (∀ sd, ∀ p ∈ s.points, (p.reg sd).Nodup)
   && decide ((s.objs.map (·.ref)).Nodup)
-  && decide (∀ e ∈ s.objs, ∀ p ∈ s.points, (e.ref ∈ p.starting ↔ e.start = some p.t))
-  && decide (∀ e ∈ s.objs, e.start = none ∨ ∃ p ∈ s.points, e.start = some p.t)
-  && decide (∀ e ∈ s.objs, ∀ p ∈ s.points, (e.ref ∈ p.ending ↔ e.stop = some p.t))
-  && decide (∀ e ∈ s.objs, e.stop = none ∨ ∃ p ∈ s.points, e.stop = some p.t)
-  && decide (∀ p ∈ s.points, ∀ o ∈ p.starting ++ p.ending, o ∈ s.objs.map (·.ref))
+  && decide (∀ sd, ∀ e ∈ s.objs, ∀ p ∈ s.points, (e.ref ∈ p.reg sd ↔ e.at sd = some p.t))
+  && decide (∀ sd, ∀ e ∈ s.objs, ∀ t ∈ e.at sd, t ∈ s.times)
+  && decide (∀ sd, ∀ p ∈ s.points, ∀ o ∈ p.reg sd, o ∈ s.objs.map (·.ref))
   && decide (∀ p ∈ s.points, p.starting ≠ [] ∨ p.ending ≠ [] ∨ p.t ∈ s.requested)
   && decide (∀ t ∈ s.requested, t ∈ s.times)
   && decide (∀ p ∈ s.points, qdAt s.qtab p.t = some p.quarter)
